@@ -55,10 +55,23 @@ type near struct {
 
 	rd, wr atomic.Int64
 	failed atomic.Bool
+	// ended: the inner stream's Read has returned an error (io.EOF included) to Pipe
+	ended      atomic.Bool
+	halfCloses atomic.Int32
 
 	mu       sync.Mutex
 	inflight map[uint64]string // goroutine -> "Read" | "Write" currently inside the inner stream
 	failGoid uint64            // the goroutine of Pipe that was handed the injected error
+	endGoid  uint64            // the goroutine of Pipe whose Read saw the stream end
+}
+
+// nearHC is a near whose inner stream can be half-closed (TCP): Pipe sees the same method set
+// as it would on the real stream.
+type nearHC struct{ *near }
+
+func (n nearHC) CloseWrite() error {
+	n.halfCloses.Add(1)
+	return n.inner.(interface{ CloseWrite() error }).CloseWrite()
 }
 
 func goid() uint64 {
@@ -109,6 +122,12 @@ func (n *near) Read(b []byte) (int, error) {
 	}
 	id := n.enter("Read")
 	k, err := n.inner.Read(b)
+	if err != nil {
+		n.mu.Lock()
+		n.endGoid = id
+		n.mu.Unlock()
+		n.ended.Store(true)
+	}
 	n.leave(id)
 	got := n.rd.Add(int64(k))
 	if err == nil && n.readFailAt >= 0 && n.readWithErr && got >= n.readFailAt {
@@ -221,6 +240,7 @@ func provenStuck(nr [2]*near, cg *caseGoroutines) (bool, string) {
 	for e, n := range nr {
 		n.mu.Lock()
 		fg := n.failGoid
+		eg := n.endGoid
 		infl := map[uint64]string{}
 		for id, op := range n.inflight {
 			infl[id] = op
@@ -232,6 +252,12 @@ func provenStuck(nr [2]*near, cg *caseGoroutines) (bool, string) {
 				return false, "the copy loop that received the injected error is still alive"
 			}
 			notes = append(notes, fmt.Sprintf("the copy loop that was handed the injected error on %c has ended", 'X'+e))
+		} else if n.ended.Load() {
+			failedSeen = true
+			if _, alive := dump[eg]; alive {
+				return false, "the copy loop that saw the stream end is still alive"
+			}
+			notes = append(notes, fmt.Sprintf("the copy loop that saw %c end has ended", 'X'+e))
 		}
 		for id, op := range infl {
 			g, ok := dump[id]
@@ -245,7 +271,7 @@ func provenStuck(nr [2]*near, cg *caseGoroutines) (bool, string) {
 		}
 	}
 	if !failedSeen {
-		return false, "no injected error has been returned to Pipe"
+		return false, "neither an injected error nor the end of a stream has been returned to Pipe"
 	}
 	if nr[0].closes.Load() > 0 && nr[1].closes.Load() > 0 {
 		return false, "both streams have been closed"
@@ -465,7 +491,14 @@ func runCase(p plan, seed int64) (out outcome) {
 		}
 	}
 
-	done := tun.Pipe(nr[0], nr[1])
+	var ends [2]io.ReadWriteCloser
+	for e := 0; e < 2; e++ {
+		ends[e] = nr[e]
+		if _, ok := nr[e].inner.(interface{ CloseWrite() error }); ok {
+			ends[e] = nearHC{nr[e]}
+		}
+	}
+	done := tun.Pipe(ends[0], ends[1])
 
 	var recv [2]bytes.Buffer // recv[e]: what far[e] received (sent by far[1-e])
 	var readErr [2]error
@@ -563,7 +596,7 @@ wait:
 			if ok, why := provenStuck(nr, cg); ok {
 				time.Sleep(200 * time.Millisecond)
 				if ok2, why2 := provenStuck(nr, cg); ok2 && why2 == why {
-					out.stuck = fmt.Sprintf("a stream error was returned to Pipe, yet the returned channel is not closed and can never be: %s; Close calls seen: X=%d Y=%d; errors delivered on the channel so far: %d", why, nr[0].closes.Load(), nr[1].closes.Load(), nerr)
+					out.stuck = fmt.Sprintf("a stream error or the end of a stream was returned to Pipe, yet the returned channel is not closed and can never be: %s; Close calls seen: X=%d Y=%d; half-closes: X=%d Y=%d; errors delivered on the channel so far: %d", why, nr[0].closes.Load(), nr[1].closes.Load(), nr[0].halfCloses.Load(), nr[1].halfCloses.Load(), nerr)
 					far[0].Close()
 					far[1].Close()
 					return
@@ -730,7 +763,11 @@ func main() {
 				stop.Store(true) // every further one costs another look period
 			}
 			r.Case("")
-			r.Violation("pipe-not-completed-after-stream-error", name, fmt.Sprintf("%s over %s/%s: %s", p.Scenario+faultSuffix(p), p.Kind[0], p.Kind[1], out.stuck), map[string]any{"plan": p})
+			key := "pipe-not-completed-after-stream-error"
+			if !strings.HasPrefix(p.Scenario, "fault") {
+				key = "pipe-not-completed-after-one-side-ended"
+			}
+			r.Violation(key, name, fmt.Sprintf("%s over %s/%s: %s", p.Scenario+faultSuffix(p), p.Kind[0], p.Kind[1], out.stuck), map[string]any{"plan": p})
 			continue
 		}
 		if out.hung != "" {
